@@ -165,8 +165,13 @@ def body(chk, exe, scratch, proof_ok, detail):
             if line.startswith("hash_check") and not any(int(x[0]) == i + 1 for x in changed):
                 bad.append("call #%d of the scenario (hash_check): an object that existed before the failed call no longer yields the digest of the bytes it absorbed" % (i + 1))
             else:
-                objs = ", ".join("the %s object in slot %s" % (x[2], x[1]) for x in changed if int(x[0]) == i + 1) or "an object"
-                bad.append("call #%d of the scenario (`%s`): %s, which existed before the call, does not read back as before it (contents compared through the public getters)" % (i + 1, line, objs))
+                here = [x for x in changed if int(x[0]) == i + 1]
+                objs = ", ".join("the %s object in slot %s" % (x[2].rstrip("!"), x[1]) for x in here if not x[2].endswith("!"))
+                broken = ", ".join("the %s object in slot %s" % (x[2].rstrip("!"), x[1]) for x in here if x[2].endswith("!"))
+                if objs:
+                    bad.append("call #%d of the scenario (`%s`): %s, which existed before the call, does not read back as before it (contents compared through the public getters)" % (i + 1, line, objs))
+                if broken or not objs:
+                    bad.append("call #%d of the scenario (`%s`): %s contradicts itself after the call (its count and its contents, or the result of the call and a look-up, disagree)" % (i + 1, line, broken or "the object the call works on"))
                 if sig is None:
                     sig = "%s@object-changed" % resfam.func_of(line.replace(" ", ","))
         if fc.get("badfree", "0") != "0":
